@@ -527,6 +527,32 @@ fn run_episode(ep: &Value, epno: usize, cache: &mut HashMap<String, Vocab>, tr: 
             s.rollback(94, 0);
             s.drop_engine(94);
         }
+        // C03 on JSON schemas: a non-accepting state in which only whitespace is offered, again and again, can never be
+        // completed (whitespace is never required in JSON): reported as a `WsTrap` event, for which the protocol
+        // specification has no action.  Looked for on a throw-away clone.
+        if ep["gram"]["kind"] == "json" && ep["ws_trap"].as_u64().unwrap_or(0) != 0 {
+            let mut probe = s.side_clone(1);
+            let mut trapped = 0;
+            for _ in 0..4 {
+                let ids = match probe.compute_mask() {
+                    Ok(m) => mask_ids(&m),
+                    Err(_) => break,
+                };
+                let ws_only = !ids.is_empty()
+                    && ids.iter().all(|&t| {
+                        let w = &voc1.words[t as usize];
+                        !w.is_empty() && w.iter().all(|b| matches!(b, 32 | 9 | 10 | 13))
+                    });
+                if !ws_only || probe.is_accepting().unwrap_or(true) || probe.consume_token(ids[0]).is_err() {
+                    break;
+                }
+                trapped += 1;
+            }
+            if trapped == 4 {
+                s.tr.ev(json!({"ev":"WsTrap","e":1,"steps":trapped}));
+                break;
+            }
+        }
         let t = match pick_h(&mut side, &mut rng, &voc1, eos_pct, &mut hints) {
             Some(t) => t,
             None => break,
